@@ -3,6 +3,7 @@ import argparse, fcntl, glob, hashlib, json, os, re, shutil, subprocess, sys, ti
 from concurrent.futures import ThreadPoolExecutor
 
 from props import PROPS, COMMON_TRUSTED
+import drift
 
 VERIF = os.path.dirname(os.path.dirname(os.path.abspath(__file__)))
 REPO = os.environ.get("VERIF_REPO", "/repo")
@@ -79,7 +80,8 @@ def step_gen(log):
         log.append("[gen build] rc=%d\n%s" % (rc, out))
         if rc != 0:
             return False
-        rc, out = sh([os.path.join(BUILD, "gen"), REPO, os.path.join(COQ, "Gen", "Generated.v")], timeout=60)
+        rc, out = sh([os.path.join(BUILD, "gen"), REPO, os.path.join(COQ, "Gen", "Generated.v"),
+                      os.path.join(VERIF, "gen", "pinned_tr.json")], timeout=60)
         log.append("[gen run] rc=%d\n%s" % (rc, out))
         return rc == 0
 
@@ -409,7 +411,31 @@ def main(argv):
     if ALT:
         prepare_alt()
 
+    try:
+        drift_mine, drift_orphan = drift.drift_for(prop, REPO, cfg.get("sources", []))
+    except Exception as ex:  # a missing pin file must not break the check
+        log.append("[drift] %r" % (ex,))
+        drift_mine, drift_orphan = [], []
+    drifted = bool(drift_mine or drift_orphan)
+    log.append("[drift] changed in this property's source directories: %s; elsewhere (unowned): %s" % (drift_mine, drift_orphan))
+
     gen_ok = step_gen(log)
+    # decision code translated from the source on this run (gen/translate.go): which functions this property's
+    # model is tied to by translation, and whether each was recognised
+    tr_status = {}
+    try:
+        for name, st in json.load(open(os.path.join(COQ, "Gen", "GeneratedTr.json"))).items():
+            if prop in st.get("props", []):
+                tr_status[name] = {k: st[k] for k in ("file", "func", "loop", "translated", "same_as_pinned", "why") if k in st}
+    except Exception as ex:
+        log.append("[gen] no translation status: %r" % (ex,))
+    untranslated = sorted(k for k, v in tr_status.items() if not v.get("translated"))
+    if untranslated:
+        # the source no longer has a shape the translator recognises: the translation tie is lost for these
+        # functions (their obligations are re-checked against the pinned terms only); the correspondence run
+        # remains the tie and is escalated like any other drift
+        drifted = True
+        log.append("[gen] not translated (pinned term used): %s" % untranslated)
     lint_ok = step_lint(prop, log)
     make_ok = step_make("Props/%s.vo" % prop, log)
     pr = step_props(prop, outdir, log) if make_ok else {"ok": False, "obligations": 0, "discharged": 0, "theorems": [],
@@ -436,6 +462,11 @@ def main(argv):
             # a replay file written by this driver wraps the cases; the harness reads {"cases": [...]}
             pass
         seeds = [seed] if tier == "quick" or a.replay else [seed * 1000 + k for k in range(cfg.get("shards_thorough", 4))]
+        if drifted and tier == "quick" and not a.replay:
+            # the sources this property is anchored in differ from the tree the model was written against:
+            # meet the edit with more evidence (twice the random cases, three seeds)
+            n = cfg.get("n_drift", n * 2 if n else n)
+            seeds = [seed, seed * 1000 + 7, seed * 1000 + 8]
         agg = None
         for s in seeds:
             r = explore(prop, cfg, outdir, s, n, tier, replay_arg, log, tmo)
@@ -546,6 +577,13 @@ def main(argv):
             "samples": (r["samples"] if r and r["samples"] else [{"note": "no case produced"}]),
             "input_distribution": r["dist"] if r else {},
             "model_coverage": r["cov"] if r else {},
+            "source_drift": {"changed_in_property_sources": drift_mine, "changed_elsewhere_unowned": drift_orphan,
+                             "escalated": bool(drifted and tier == "quick" and not a.replay),
+                             "note": "files whose content differs from lib/pinned_sources.json (the tree the models were written against); "
+                                     "drift alone raises nothing, it doubles the random cases and runs three seeds"},
+            "translated_from_source": {"functions": tr_status, "not_recognised": untranslated,
+                                       "note": "Gallina decision terms regenerated from /repo by gen/translate.go on this run; the Props file proves "
+                                               "the model takes exactly these decisions (theorems *_gen_*_decisions)"},
             "model_vs_impl_mismatches": len(r["mism"]) if r else None,
             "checker_failures": len(r["bad"]) if r else None,
             "known_findings_open": [f["id"] for f in open_f],
